@@ -133,48 +133,119 @@ def gen_a64dyn(limit=None):
             obligations.append(ob)
     if limit:
         obligations = obligations[:limit]
-    # ---- the generated run-time expression of each representative
-    reqs = []
-    for ob in obligations:
-        f = fs[ob["form"]]
-        vals = f.base_values()
-        if vals is None:
-            ob["skip"] = "no base instantiation"
-            reqs.append("cl ; .arch aarch64 ; nop")
-            continue
+    # ---- the generated run-time expression of each representative.  A rendered line can be taken by ANOTHER entry of the mnemonic (an
+    # earlier, more specific form): a candidate is accepted only if its literal spelling at a documented value assembles to what its own
+    # run-time expression evaluates to there; otherwise the next form with the same command group is tried (a genuine literal/run-time
+    # difference makes every candidate fail: the first is kept and the check reports it)
+    def doc_value(c):
+        if isinstance(c, forms.Range):
+            vs = c.values(64)
+            pos = [x for x in vs if x > 0]
+            return min(pos) if pos else (0 if 0 in vs else (vs[0] if vs else 0))
+        if isinstance(c, forms.List_):
+            return int(c.options[-1])
+        if isinstance(c, forms.Special):
+            v = forms.special_values(c.kind)[1]
+            return v
+        return 0
+
+    def variants(f):
+        """the base instantiation, then variations of the slots that steer the matcher (modifiers, sp-capable registers)"""
+        base = f.base_values()
+        if base is None:
+            return
+        yield base
+        for i in f.indices:
+            c = f.constraints.get(i)
+            if isinstance(c, forms.ModWX):
+                for m_ in ("UXTW", "SXTW", "SXTX"):
+                    d = dict(base); d[i] = m_; yield d
+            elif isinstance(c, forms.List_) and all(isinstance(o, str) for o in c.options):
+                for o in c.options[1:4]:
+                    d = dict(base); d[i] = o; yield d
+            elif f.kind_of(i) in ("WSP", "XSP"):
+                d = dict(base); d[i] = 31; yield d
+
+    def attempt(ob, fi):
+        f = fs[fi]
+        want = f"{entry_of[fi]['m']}#{entry_of[fi]['i']}"
         runtime = {ob["idx"]: "v"}
         if ob["needs_prev"]:
             runtime[ob["idx"] - 1] = "a"
-        ob["vals"] = vals
-        ob["line"] = f.render(vals, runtime=runtime)
-        reqs.append("cl ; .arch aarch64 ; " + ob["line"])
-    _, out = common.sh([common.PLUG, "exec"], inp="\n".join(reqs) + "\n", timeout=3600)
-    answers = [a for (_, a) in common.answers_of_impl(out)]
-    for ob, a in zip(obligations, answers):
-        if "skip" in ob:
-            continue
-        if not a.startswith("ok "):
-            ob["skip"] = "representative line rejected: " + a[:120]
-            continue
-        stmts = json.loads(a[3:])
+        vals = line = None
+        cands = list(variants(f))
+        if not cands:
+            return None
+        _, wout = common.sh([common.PLUG, "exec"], inp="\n".join("which " + f.render(v, runtime=runtime) for v in cands) + "\n", timeout=600)
+        for v, (_, a) in zip(cands, common.answers_of_impl(wout)):
+            if a == want:
+                vals, line = v, f.render(v, runtime=runtime)
+                break
+        if vals is None:
+            return dict(skip=f"no instantiation of this form is matched by its own table entry {want}")
+        dv = doc_value(f.constraints.get(ob["idx"]))
+        pv = doc_value(f.constraints.get(ob["idx"] - 1)) if ob["needs_prev"] else None
+        if ob["needs_prev"] and isinstance(f.constraints.get(ob["idx"]), forms.Range2):
+            dv = 1
+        lit = {ob["idx"]: (repr(dv) if isinstance(dv, float) else str(dv))}
+        if ob["needs_prev"]:
+            lit[ob["idx"] - 1] = str(pv)
+        _, out = common.sh([common.PLUG, "exec"], inp="cl ; .arch aarch64 ; " + line + "\ncl ; .arch aarch64 ; " + f.render(vals, runtime=lit) + "\n", timeout=600)
+        ans = [a for (_, a) in common.answers_of_impl(out)]
+        if len(ans) != 2 or not ans[0].startswith("ok "):
+            return dict(skip="representative line rejected: " + (ans[0][:120] if ans else "no answer"))
+        stmts = json.loads(ans[0][3:])
         ex = [s for s in stmts if s.startswith("eu4|")]
         if len(ex) != 1 or len(stmts) != 1:
-            ob["skip"] = "not a single run-time word: " + a[:120]
-            continue
-        ob["expr"] = ex[0][4:]
-        m = re.match(r"^\((\d+)u32 \|", ob["expr"])
+            return dict(skip="not a single run-time word: " + ans[0][:120])
+        expr = ex[0][4:]
+        m = re.match(r"^\((\d+)u32 \|", expr)
         if not m:
-            ob["skip"] = "no leading constant"
-            continue
-        ob["K"] = int(m.group(1))
+            return dict(skip="no leading constant")
         variables = {"v": ob["ty"]}
         if ob["needs_prev"]:
             variables["a"] = "u32"
-        ob["vars"] = variables
         try:
-            ob["ir"] = {ck: rustexpr.translate(ob["expr"], variables, ck) for ck in (True, False)}
+            ir = {ck: rustexpr.translate(expr, variables, ck) for ck in (True, False)}
         except rustexpr.Untranslatable as e:
-            ob["skip"] = f"untranslatable: {e}"
+            return dict(skip=f"untranslatable: {e}")
+        res = dict(vals=vals, line=line, expr=expr, K=int(m.group(1)), vars=variables, ir=ir, form=fi, consistent=None)
+        # self-test at the documented value (floats enter as f32 bits)
+        try:
+            import struct
+            env = {"v": struct.unpack("<I", struct.pack("<f", dv))[0] if isinstance(dv, float) else dv & ((1 << 64) - 1)}
+            if ob["needs_prev"]:
+                env["a"] = pv
+            ext = {k: (lambda x: 0) for k in ("logical32.ok", "logical32.val", "logical64.ok", "logical64.val", "float.ok", "float.val")}
+            uses_ext = "encode_" in expr
+            if not uses_ext and ans[1].startswith("ok "):
+                st = json.loads(ans[1][3:])
+                if len(st) == 1 and st[0].startswith("c4|"):
+                    p, val, _ = ir[False]
+                    res["consistent"] = (not rustexpr.ev(p, env, ext)) and rustexpr.ev(val, env, ext) == int(st[0][3:], 16)
+        except Exception:       # noqa
+            pass
+        return res
+
+    for ob in obligations:
+        chosen = None
+        for fi in ob["forms"][:8]:
+            r = attempt(ob, fi)
+            if r is None:
+                continue
+            if chosen is None:
+                chosen = r
+            if "skip" not in r and r.get("consistent") is not False:
+                chosen = r
+                break
+        if chosen is None:
+            ob["skip"] = "no base instantiation"
+        else:
+            ob.update(chosen)
+            if "skip" not in chosen:
+                ob["constraint"] = fs[ob["form"]].constraints.get(ob["idx"])
+                ob["mnemonic"] = fs[ob["form"]].mnemonic
+                ob["entry"] = (entry_of[ob["form"]]["m"], entry_of[ob["form"]]["i"])
     # ---- Lean
     os.makedirs(common.GEN, exist_ok=True)
     thms = []
@@ -438,7 +509,10 @@ def gen_regdyn():
                 if key not in seen and base is not None and not any(isinstance(v, str) and v.startswith("->") for v in base.values()) and "e" not in f.extra[1][0][:1]:
                     seen.add(key)
                     isa = "riscv64" if "rv64" in f.extra[0] else "riscv32"
-                    obligations.append(dict(n=len(obligations), arch="riscv", cls=RV_REG_CLS[n], off=c[1], header=f"; .arch {isa} ; .feature {f.extra[1][0]} ;",
+                    cls = RV_REG_CLS[n]
+                    if n == "Rpops2":
+                        cls = f"(.popsNe {base[cur - 1]})"
+                    obligations.append(dict(n=len(obligations), arch="riscv", cls=cls, off=c[1], header=f"; .arch {isa} ; .feature {f.extra[1][0]} ;",
                                             line=f.render(base, runtime={cur: f"{f.kind_of(cur)}(v)"}), ty="u8", mnemonic=f.mnemonic, cmd=n,
                                             compressed=op["template"][0] == "Compressed"))
             cur += 1
